@@ -1177,6 +1177,11 @@ pub fn shape_pairs(rng: &mut Rng, shape: Shape, n: usize, directed: bool) -> Vec
                 e.push((i + 2, i + 3));
                 i += 3;
             }
+            // nodes that are left over continue the chain as a plain path (a tail behind the last diamond)
+            while i + 1 < n {
+                e.push((i, i + 1));
+                i += 1;
+            }
         }
         Shape::Wheel => {
             for i in 1..n {
